@@ -259,6 +259,22 @@ class C05(Base):
                         out.append(('setid-in-use-accepted', '`%s`: the ID is in use in %s but the call returned %s' % (op, e['parent'], r)))
         return out
 
+    @staticmethod
+    def extra(ctx, proof, found):
+        # the extracted model evaluates, on every generated history, the guard of the uniqueness theorem
+        # (Heap/Uniq.v run_ok_b) and the invariant itself (uniq_b, sound by uniq_b_sound) after every call
+        st = getattr(ctx, 'model_stats', {}) or {}
+        ctx.coverage['theorem_guard'] = dict(
+            histories=st.get('cases', 0), satisfying_run_ok=st.get('guard_ok', 0),
+            model_uniqueness_failures_with_guard=st.get('uniq_fail_guarded', 0),
+            model_uniqueness_failures_without_guard=st.get('uniq_fail_unguarded', 0),
+            note='histories that use calls outside the theorem (copies, reassignIds, ...) count as not satisfying the guard')
+        if st.get('uniq_fail_guarded', 0) and not found:
+            ctx.violation('the extracted model breaks ID uniqueness on a history that satisfies the guard of '
+                          'C05_ids_unique_in_every_history: the theorem and the executable model disagree',
+                          dict(kind='theorem-vs-extraction', theorem='C05_ids_unique_in_every_history', stats=st),
+                          found_input=False)
+
 
 class C06(Base):
     rule = ('reference-edit histories over 3-8 objects and pack formats (nested objects, complementary objects, nested '
